@@ -25,7 +25,9 @@
      len  payload length and its encoding (data, ping, pong):
           "0" "S"(5) "125" 7-bit | "126" 16-bit form | "64k" 65536, 64-bit form |
           "nm16" 5 bytes in the 16-bit form | "nm64" 5 bytes in the 64-bit form |
-          "msb" 64-bit form with the most significant bit set
+          "msb" 64-bit form with the most significant bit set |
+          "max63" 64-bit form announcing 2^63-1 bytes (msb clear: a valid header); the peer
+          cannot send that much, the stream always ends after a few payload bytes
           close frames: "cl" (length follows from pc)
      pc   payload class.  close: "empty" | "one" (1 byte) | "code" (2 bytes) |
           "reason" (code + UTF-8 text) | "max125" (code + 123 bytes = 125) |
@@ -54,8 +56,12 @@ vars == <<inp, res>>
 ---------------------------------------------------------------------------
 (* --- sizes -------------------------------------------------------------- *)
 
+\* TLC integers are 32 bit: Huge stands for 2^63-1 (larger than any limit and any sum of the other sizes;
+\* a "max63" frame is always the last one, so at most one Huge enters a sum)
+Huge == 1000000000
 Sz(l) == CASE l = "0" -> 0 [] l = "S" -> 5 [] l = "125" -> 125 [] l = "126" -> 126
            [] l = "64k" -> 65536 [] l = "nm16" -> 5 [] l = "nm64" -> 5 [] l = "msb" -> 5
+           [] l = "max63" -> Huge
 
 CloseLen(pc) == CASE pc = "empty" -> 0 [] pc = "one" -> 1 [] pc = "code" -> 2 [] pc = "reason" -> 7
                   [] pc = "max125" -> 125 [] pc = "badutf8" -> 4 [] pc = "long" -> 126
@@ -132,7 +138,13 @@ DataStep(st, f, i, p) ==
       parts == Append(IF first THEN <<>> ELSE st.parts, i)
   IN
   IF p.rl > 0 /\ acc > p.rl
-    THEN Fail(st, i, "toobig", {1009}, {}, {})                 \* wire size of the message > read limit
+    \* wire size of the message > read limit; the announced length counts (the limit exists so that the
+    \* bytes are not read), also when the sum of the fragments is astronomically large
+    THEN Fail(st, i, "toobig", {1009}, {}, IF f.len = "max63" THEN {"len-max63"} ELSE {})
+  ELSE IF f.len = "max63"
+    \* no limit: the frame is accepted and the stream ends inside its payload (a reader whose counter
+    \* cannot hold the message size may as well answer 1009)
+    THEN Fail(st, i, "eof", {}, {"toobig"}, {"len-max63"})
   ELSE IF ~f.fin THEN
     IF comp /\ p.dl > 0 /\ PartialInflated(pcl, acc) > p.dl
       \* the unfinished message already inflates beyond the limit: WHEN a streaming decoder reports it
@@ -276,6 +288,9 @@ A1 == A2
              pc \in {"empty", "one", "code", "badutf8", "long"}, fin \in B, r \in {"none", "r1", "rx"}}
    \cup  {Cl("badutf8", 1005, TRUE, "none"), Cl("long", 1005, TRUE, "none")}
 
+\* frames announcing 2^63-1 bytes: first and continuation position, FIN or not, compressed or not
+AH == {Fr(o, fin, "none", "max63") : o \in {"text", "bin", "cont"}, fin \in B} \cup {Fr("text", FALSE, "r1", "max63")}
+
 AlphabetOK ==
   /\ A3 \subseteq A2 /\ A2 \subseteq A1
   /\ \A f \in A1 :
@@ -291,6 +306,7 @@ ASSUME AlphabetOK
 P(c, rl, dl) == [comp |-> c, rl |-> rl, dl |-> dl]
 ParamsAll == {P(FALSE, 0, 0), P(FALSE, 130, 0), P(TRUE, 0, 0), P(TRUE, 130, 128), P(TRUE, 130, 127)}
 ParamsTwo == {P(FALSE, 0, 0), P(TRUE, 130, 127)}
+ParamsRL  == {p \in ParamsAll : p.rl > 0}
 Truncs    == {"none", "hdr", "pay"}
 
 \* (IF, not a disjunction: TLC would enumerate an initial state once per true disjunct)
@@ -302,7 +318,7 @@ Pick(S, T, PS) == \E s \in S, t \in T, p \in PS : TrOK(s, t) /\ inp = [fr |-> s,
 
 \* Frames that stop the decoder in every context (a violation whatever the state and the parameters, or a
 \* Close) are enumerated in the LAST position only: what follows them is never looked at.
-AlwaysStops(f) == f.op = "close" \/ \A p \in ParamsAll, m \in BOOLEAN : V(f, m, p) # {}
+AlwaysStops(f) == f.op = "close" \/ f.len = "max63" \/ \A p \in ParamsAll, m \in BOOLEAN : V(f, m, p) # {}
 Cont(A) == {f \in A : ~AlwaysStops(f)}
 C2 == Cont(A2)
 C3 == Cont(A3)
@@ -313,6 +329,8 @@ InitQuick ==
   \/ Pick({<<a, b>> : a \in C2, b \in A2}, {"none"}, ParamsAll)
   \/ Pick({<<a, b>> : a \in C3, b \in A3}, {"hdr", "pay"}, ParamsAll)
   \/ Pick({<<a, b, c>> : a \in C3, b \in C3, c \in A3}, {"none"}, ParamsAll)
+  \/ Pick({<<h>> : h \in AH}, {"none"}, ParamsRL)
+  \/ Pick({<<a, h>> : a \in C2, h \in AH}, {"none"}, ParamsRL)
 
 InitThorough ==
   \/ Pick({<<>>}, {"none"}, ParamsAll)
@@ -321,6 +339,9 @@ InitThorough ==
   \/ Pick({<<a, b>> : a \in C2, b \in A2}, {"hdr", "pay"}, ParamsAll)
   \/ Pick({<<a, b, c>> : a \in C3, b \in C2, c \in A2}, {"none"}, ParamsAll)
   \/ Pick({<<a, b, c, d>> : a \in C3, b \in C3, c \in C3, d \in A3}, {"none"}, ParamsTwo)
+  \/ Pick({<<h>> : h \in AH}, {"none"}, ParamsRL)
+  \/ Pick({<<a, h>> : a \in C2, h \in AH}, {"none"}, ParamsRL)
+  \/ Pick({<<a, b, h>> : a \in C3, b \in C3, h \in AH}, {"none"}, ParamsRL)
 
 \* Two steps per input so that TLC's workers share the evaluation of the decoder and of the
 \* invariants (initial states are computed by one thread): Init picks the input, Decode runs the decoder.
@@ -341,7 +362,7 @@ F  == inp.fr
 N  == Len(F)
 K  == res.at                      \* frame at which the decoder stopped; N+1 = clean end of stream
 PP == inp.p
-Truncated == inp.tr # "none" /\ K = N
+Truncated == K = N /\ (inp.tr # "none" \/ (F[N].len = "max63" /\ res.kind = "eof"))
 
 Max0(S) == IF S = {} THEN 0 ELSE Max(S)
 DataBefore(k) == {j \in 1..(k - 1) : IsData(F[j])}
